@@ -47,6 +47,25 @@ def run(ctx):
                 cells[(comp, tn)] = v
         v, f = ev.call_function('keys.PrivateKey.wif', [_key_obj(k)])
         same_term(ob, v, SP.b58check(T.cat(T.const(b'\x80'), k, T.const(b'\x01'))), 'default WIF is compressed mainnet', fw.where)
+        # the key objects a private node hands out (whatever class they are today) answer wif(compressed, testnet) the same
+        # way, with the arguments given by position or by keyword
+        node, kn = prv_node()
+        nk = attr_of(ev, node, 'private_key', Facts())
+        for cs_, key_obj in normal_leaves(nk):
+            if T.tag(key_obj) != 'obj':
+                ob.undecided('PrvKeyNode.private_key does not evaluate to an object', fw.where)
+                continue
+            for comp in (True, False):
+                for tn in (True, False):
+                    prefix = b'\xef' if tn else b'\x80'
+                    want = SP.b58check(T.cat(T.const(prefix), kn, T.const(b'\x01' if comp else b'')))
+                    v, f = ev.call_function('keys.PrivateKey.wif', [key_obj, T.const(comp), T.const(tn)], facts=Facts(cs_))
+                    same_term(ob, v, want, 'node.private_key.wif(%s, %s) - positional arguments' % (comp, tn), fw.where)
+                    v, f = ev.call_function('keys.PrivateKey.wif', [key_obj], {'compressed': T.const(comp), 'testnet': T.const(tn)}, facts=Facts(cs_))
+                    same_term(ob, v, want, 'node.private_key.wif(compressed=%s, testnet=%s)' % (comp, tn), fw.where)
+                v, f = ev.call_function('keys.PrivateKey.wif', [key_obj, T.const(comp)], facts=Facts(cs_))
+                same_term(ob, v, SP.b58check(T.cat(T.const(b'\x80'), kn, T.const(b'\x01' if comp else b''))),
+                          'node.private_key.wif(%s): the network defaults to mainnet' % comp, fw.where)
     # ---------------------------------------------------------------- first character analysis
     ffw = p.get_function('keys.PrivateKey.from_wif')
     with ctx.obligation('C09.FIRSTCHAR', 'PrivateKey.from_wif', None, ffw.where) as ob:
